@@ -85,9 +85,24 @@ def rs(x):
     return '%d/%d' % (f.numerator, f.denominator)
 
 
+CALL_FORMS = {            # which optional arguments the call form leaves at their default
+    'positional': (), 'keyword': (), 'mixed': (), 'defaults': ('N', 'Es'), 'default-Es': ('Es',),
+    'kw-N-default-Es': ('Es',), 'kw-Es-default-N': ('N',),
+}
+
+
+def omitted(case):
+    return CALL_FORMS[(case.get('variant') or {}).get('call', 'positional')]
+
+
 def line_of(case):
-    return 'wf gains=%s P=%s N=%s Es=%s' % (','.join(rs(x) for x in case['g']), rs(case['P']),
-                                            rs(case['N']), rs(case['Es']))
+    om = omitted(case)
+    for k in om:
+        if case[k] != 1.0:
+            raise core.Infra('call form %r needs %s == 1' % (case['variant']['call'], k))
+    return 'wf gains=%s P=%s%s%s' % (','.join(rs(x) for x in case['g']), rs(case['P']),
+                                     '' if 'N' in om else ' N=' + rs(case['N']),
+                                     '' if 'Es' in om else ' Es=' + rs(case['Es']))
 
 
 def parse_reply(s):
@@ -162,7 +177,20 @@ def build_input(case):
     elif shape == '0d':
         g = np.array(vals[0], dtype=garr)
     cont = v.get('container', 'ndarray')
-    if cont == 'list':
+    if v.get('elems'):              # R10: every element in its own python / numpy type
+        els = []
+        for x, t in zip(vals, v['elems']):
+            e = SCALAR_CONV[t](x)
+            if float(e) != x:
+                raise core.Infra('element type %s cannot hold %r' % (t, x))
+            els.append(e)
+        if cont == 'object-array':
+            g = np.empty(n, dtype=object)
+            for i, e in enumerate(els):
+                g[i] = e
+        else:
+            g = tuple(els) if cont == 'tuple' else els
+    elif cont == 'list':
         g = base.tolist()
     elif cont == 'tuple':
         g = tuple(base.tolist())
@@ -170,24 +198,48 @@ def build_input(case):
     out = [g]
     for k in ('P', 'N', 'Es'):
         x = conv(case[k])
-        if float(x) != float(case[k]):
+        if float(np.asarray(x).reshape(-1)[0]) != float(case[k]):
             raise core.Infra('variant %r cannot hold %s=%r exactly' % (v, k, case[k]))
         out.append(x)
     return tuple(out)
 
 
-def call_raw(args):
+def call_raw(args, kwargs=None):
     wf = _impl()
     with np.errstate(all='ignore'):
         import warnings
         with warnings.catch_warnings():
             warnings.simplefilter('ignore')
-            return wf.doWF(*args)
+            return wf.doWF(*args, **(kwargs or {}))
+
+
+def call_form(case, objs=None):
+    """(args, kwargs) of the Python call for the case's call form (R8)"""
+    g, P, N, Es = objs if objs is not None else build_input(case)
+    form = (case.get('variant') or {}).get('call', 'positional')
+    for k in CALL_FORMS[form]:
+        if case[k] != 1.0:
+            raise core.Infra('call form %r needs %s == 1' % (form, k))
+    if form == 'positional':
+        return (g, P, N, Es), {}
+    if form == 'keyword':
+        return (), {'Es': Es, 'noiseVar': N, 'dPt': P, 'vtChannels': g}
+    if form == 'mixed':
+        return (g, P), {'Es': Es, 'noiseVar': N}
+    if form == 'defaults':
+        return (g, P), {}
+    if form == 'default-Es':
+        return (g, P, N), {}
+    if form == 'kw-N-default-Es':
+        return (g,), {'noiseVar': N, 'dPt': P}
+    if form == 'kw-Es-default-N':
+        return (g,), {'dPt': P, 'Es': Es}
+    raise core.Infra('unknown call form %r' % form)
 
 
 def run_impl(case):
-    p, mu = call_raw(build_input(case))
-    return np.asarray(p, dtype=float), float(mu)
+    p, mu = call_raw(*call_form(case))
+    return np.asarray(p, dtype=float), float(np.asarray(mu, dtype=float).reshape(-1)[0])
 
 
 def twin(case):
@@ -574,9 +626,96 @@ def o_history(case):
     return None
 
 
+def o_argform(case):
+    """R8: positional / keyword / mixed calls and calls that leave noiseVar and/or Es at their
+    default give bit for bit the result of the explicit positional call; a length-1 array
+    where a scalar is documented is rejected or read as that scalar"""
+    v = dict(case.get('variant') or {})
+    form = v.get('call', 'positional')
+    kind = 'R8:' + form + (':len1-scalars' if v.get('scalars') == 'len1' else '')
+    ref_case = dict(case)
+    ref_case['variant'] = {k: x for k, x in v.items() if k != 'call' and not (k == 'scalars' and x == 'len1')}
+    ref = call_raw(build_input(ref_case))
+    try:
+        got = call_raw(*call_form(case))
+    except Exception as e:
+        if v.get('scalars') == 'len1':
+            return None
+        return kind, 'raises %r' % e
+    gp = np.asarray(got[0])
+    if v.get('scalars') == 'len1':
+        if not same_result((gp.reshape(-1), got[1]), ref, 1e-12):
+            return kind, 'p=%r mu=%r, scalar arguments give p=%r mu=%r' % (
+                gp.tolist(), np.asarray(got[1]).tolist(), np.asarray(ref[0]).tolist(), float(ref[1]))
+        return None
+    if gp.shape != np.asarray(ref[0]).shape or not np.array_equal(gp, np.asarray(ref[0])) \
+            or float(got[1]) != float(ref[1]):
+        return kind, 'p=%r mu=%r, the explicit positional call gives p=%r mu=%r' % (
+            gp.tolist(), float(got[1]), np.asarray(ref[0]).tolist(), float(ref[1]))
+    return None
+
+
+def o_hetero(case):
+    """R10: a gain collection whose elements differ in python / numpy type gives the result of
+    the uniformly promoted (float64) twin — nothing is truncated to the type of the first element"""
+    v = case.get('variant') or {}
+    kind = 'R10:%s:first-%s' % (v.get('container', 'list'), v['elems'][0])
+    ref = run_impl(twin(case))
+    try:
+        p, mu = call_raw(*call_form(case))
+    except (TypeError, AttributeError):
+        return None                 # the API takes arrays; a list may be rejected, never mis-handled
+    if not isinstance(p, np.ndarray) or p.dtype.kind != 'f':
+        return kind, 'allocation returned as %s of dtype %s' % (type(p).__name__, getattr(p, 'dtype', None))
+    if not same_result((p, mu), ref, RTOL):
+        return kind, 'p=%r mu=%r but the float64 twin gives p=%r mu=%r' % (
+            np.asarray(p).tolist(), float(mu), ref[0].tolist(), ref[1])
+    return None
+
+
+def o_derived(case):
+    """R13: result and arguments stay independent after the call — the gains overwritten after
+    the call do not change the result (and a new call sees the new gains), the result fed back
+    as the gains of another call / scribbled over / pickled does not touch the first call"""
+    import pickle
+    kind = 'R13:' + variant_kind(case.get('variant')) + ':' + (case.get('variant') or {}).get('layout', 'contig')
+    objs = build_input(case)
+    g = objs[0]
+    p1, mu1 = call_raw(*call_form(case, objs))
+    keep, keep_mu = np.array(p1, copy=True), float(mu1)
+    rt = pickle.loads(pickle.dumps((p1, mu1)))
+    if not np.array_equal(rt[0], keep) or float(rt[1]) != keep_mu or rt[0].dtype != p1.dtype:
+        return kind, 'pickle round trip of the result differs'
+    # child used further: the allocation (shifted to be positive) as the gains of another call
+    child = p1 + 1.0
+    q, _ = call_raw((child, objs[1], objs[2], objs[3]))
+    if not np.array_equal(p1, keep) or not np.array_equal(child, keep + 1.0):
+        return kind, 'using the result as the gains of another call changed it'
+    fresh = call_raw((np.array(keep + 1.0), objs[1], objs[2], objs[3]))
+    if not np.array_equal(np.asarray(q), np.asarray(fresh[0])):
+        return kind, 'a call on the derived array differs from a call on a fresh copy of it'
+    # parent changed after the child was derived
+    if isinstance(g, np.ndarray) and g.flags.writeable and g.ndim == 1:
+        newvals = [float(x) for x in np.asarray(g, dtype=float)[::-1]]
+        newvals[0] = newvals[0] * 2.0 if g.dtype.kind == 'f' else newvals[0]
+        g[...] = np.array(newvals, dtype=g.dtype)
+        if not np.array_equal(p1, keep) or float(mu1) != keep_mu:
+            return kind, 'overwriting the gain array after the call changed the returned allocation'
+        again = call_raw(*call_form(case, objs))
+        c2 = dict(case)
+        c2['g'] = [float(x) for x in np.asarray(g, dtype=float)]
+        fresh2 = call_raw(*call_form(c2))
+        if not np.array_equal(np.asarray(again[0]), np.asarray(fresh2[0])) or float(again[1]) != float(fresh2[1]):
+            return kind, 'after overwriting the gain array a new call does not see the new gains'
+        if not np.array_equal(p1, keep):
+            return kind, 'a later call changed the earlier allocation'
+    return None
+
+
 ORACLES = {'doWF': o_alloc, 'doWF.optimal': o_optimal, 'doWF.permute': o_perm,
            'doWF.dtype': o_dtype, 'doWF.layout': o_layout, 'doWF.immutable': o_immutable,
-           'doWF.rejected': o_rejected, 'doWF.scale': o_scale, 'doWF.history': o_history}
+           'doWF.rejected': o_rejected, 'doWF.scale': o_scale, 'doWF.history': o_history,
+           'doWF.argform': o_argform, 'doWF.hetero': o_hetero, 'doWF.derived': o_derived}
 
 
 def run_oracle(ctx, call, case, nontrivial=True):
@@ -795,8 +934,8 @@ def compare_one(ctx, case, m):
     for b in case.get('branches', ()):
         ctx.branch(b)
     if cc.get('variant'):
-        ctx.branch('corr:R1/R2-variant:' + variant_kind(cc['variant']) + ':'
-                   + cc['variant'].get('layout', 'contig'))
+        ctx.branch('corr:variant:' + variant_kind(cc['variant']) + ':'
+                   + cc['variant'].get('layout', 'contig') + ':' + cc['variant'].get('call', 'positional'))
     ctx.sample({'call': 'doWF', 'case': cc, 'impl': {'p': p.tolist(), 'mu': mu},
                 'model': {'p': [str(x) for x in m['p']], 'mu': str(m['mu']), 'kept': m['kept']}})
 
@@ -978,6 +1117,107 @@ def robustness_oracles(ctx, r1, r2, n_other):
         run_oracle(ctx, 'doWF.scale', c6)
 
 
+# ------------------------------------------------------------------ R8-R14 streams
+def gen_r8(rng, count):
+    """argument forms: positional / keyword / mixed, optional arguments left at their default"""
+    out = []
+    forms = [f for f in CALL_FORMS if f != 'positional']
+    for i in range(count):
+        form = forms[i % len(forms)]
+        r = rng.below(3)
+        c = clean(gen_case(rng, 10) if r == 0 else gen_dyadic(rng, 8) if r == 1 else
+                  gen_int_case(rng, rng.choice(['int32', 'uint8', 'float64']), rng.choice(['pyint', 'pyfloat', 'int16'])))
+        style = 'dyadic' if r == 1 else None
+        for k in CALL_FORMS[form]:
+            c[k] = 1.0
+        c.setdefault('variant', {})['call'] = form
+        if style:
+            c['style'] = style
+        out.append(c)
+    for form in ('positional', 'keyword', 'default-Es'):     # length-1 arrays where scalars are documented
+        c = clean(gen_case(rng, 6))
+        for k in CALL_FORMS[form]:
+            c[k] = 1.0
+        c['variant'] = {'call': form, 'scalars': 'len1'}
+        out.append(c)
+    return out
+
+
+INT_ELEM = ['pyint', 'int8', 'uint8', 'int64', 'int16', 'pyfloat', 'float32', 'float64', '0d']
+FRAC_ELEM = ['pyfloat', 'float32', 'float64', 'float16', '0d']
+
+
+def gen_r10(rng, count):
+    """gain collections whose elements differ in type: the first element an integer type, later
+    ones fractional floats (and the other way round), lists / tuples / object arrays"""
+    out = []
+    for i in range(count):
+        n = rng.randint(2, 8)
+        vals, elems = [], []
+        for j in range(n):
+            if (j == 0 and i % 3 != 2) or (j > 0 and rng.chance(0.4)):
+                vals.append(float(rng.randint(1, 100)))
+                elems.append(rng.choice(INT_ELEM[:5]) if j == 0 else rng.choice(INT_ELEM))
+            else:
+                vals.append(rng.randint(1, 800) / 8.0 + 0.125 * (1 - rng.below(2)))
+                elems.append(rng.choice(FRAC_ELEM))
+        if all(float(x).is_integer() for x in vals):
+            vals[-1], elems[-1] = vals[-1] + 0.625, 'pyfloat'
+        c = {'g': vals, 'P': logu(rng, -1, 2), 'N': rng.choice([1.0, 0.5, 3.0]), 'Es': rng.choice([1.0, 2.0, 0.25]),
+             'variant': {'container': ('list', 'tuple', 'object-array')[i % 3], 'elems': elems}}
+        out.append(c)
+    out.append({'g': [3.0, 2.5, 0.75], 'P': 1.0, 'N': 1.0, 'Es': 1.0,
+                'variant': {'container': 'list', 'elems': ['pyint', 'pyfloat', 'float32']}})
+    return out
+
+
+def gen_r14(rng, sizes):
+    """scale in COUNTS: many channels (8-bit mantissas keep the exact model cheap)"""
+    out = []
+    for n in sizes:
+        c = rng.uniform(-1, 1)
+        g = [quantize(logu(rng, c - 1, c + 1), 8) for _ in range(n)]
+        N, Es = rng.choice([1.0, 0.5]), rng.choice([1.0, 2.0])
+        k = max(1, n - rng.randint(0, 40))                 # a few dozen channels switched off at most
+        t = threshold_P(g, N, Es, k)
+        t2 = threshold_P(g, N, Es, k + 1) if k < n else 2 * t + 1.0
+        P = t + (t2 - t) * rng.uniform(0.2, 0.8) if t2 > t else max(t, 1.0) * 1.5
+        out.append({'g': g, 'P': float(P), 'N': N, 'Es': Es, 'branches': ['R14:n=%d' % n]})
+    return out
+
+
+def robustness2_oracles(ctx, r8, r10, r14_big, n_other):
+    for c in r8:
+        run_oracle(ctx, 'doWF.argform', clean(c))
+        ctx.branch('R8:' + c['variant']['call'])
+        if c['variant'].get('scalars') == 'len1':
+            ctx.branch('R8:len1-scalars')
+    for c in r10:
+        run_oracle(ctx, 'doWF.hetero', clean(c))
+        ctx.branch('R10:' + c['variant']['container'])
+    pool = [clean(c) for c in r8 if c['variant'].get('scalars') != 'len1']
+    for i in range(n_other):
+        c = dict(ctx.rng.choice(pool)) if i % 3 == 0 else clean(gen_case(ctx.rng, 10))
+        if i % 3 == 1:
+            c = clean(gen_int_case(ctx.rng, ctx.rng.choice(['int32', 'uint8']), 'pyfloat'))
+            c['variant']['layout'] = ctx.rng.choice(['strided', 'column', 'reversed'])
+        run_oracle(ctx, 'doWF.derived', c)
+        ctx.branch('R13:derived')
+    for c in r14_big:                     # too long for the exact-rational model: oracles only
+        cc = clean(c)
+        n = len(cc['g'])
+        run_oracle(ctx, 'doWF', cc)
+        co = dict(cc)
+        co['oseed'] = ctx.rng.below(1 << 30)
+        run_oracle(ctx, 'doWF.optimal', co)
+        cp = dict(cc)
+        sigma = list(range(n))
+        ctx.rng.shuffle(sigma)
+        cp['perm'] = sigma
+        run_oracle(ctx, 'doWF.permute', cp)
+        ctx.branch('R14:n=%d(oracles only)' % n)
+
+
 # ------------------------------------------------------------------ check
 def grid_cases():
     """thorough tier: every gain vector over {1/2,1,2,3} of length 1..4 x a grid of P, N, Es"""
@@ -1006,7 +1246,8 @@ def oracles(ctx, cases):
     for i, case in enumerate(cases):
         cc = clean(case)
         n = len(cc['g'])
-        if (cc.get('variant') or {}).get('shape') or (cc.get('variant') or {}).get('container'):
+        v = cc.get('variant') or {}
+        if v.get('shape') or (v.get('container') and not v.get('elems')):
             continue
         run_oracle(ctx, 'doWF', cc, nontrivial=n >= 2)
         co = dict(cc)
@@ -1046,6 +1287,15 @@ def check(ctx):
         'R2:strided', 'R2:reversed', 'R2:column', 'R2:fcolumn', 'R2:readonly', 'R2:broadcast',
         'R2:col2d', 'R2:row2d', 'R2:3d', 'R2:0d', 'R3:immutability'] + ['R4:' + r for r in REJECTS] + [
         'R5:boundary', 'R5:P=0', 'R6:scaled-input', 'R6:power-noise', 'R6:gain-noise', 'R6:gain-Es', 'R7:history']
+    # second robustness round: R8 argument forms, R10 heterogeneous collections, R14 counts
+    r8 = gen_r8(ctx.rng, 120 if quick else 1200)
+    r10 = gen_r10(ctx.rng, 90 if quick else 900)
+    cases += [c for c in r8 if c['variant'].get('scalars') != 'len1'] + r10
+    cases += gen_r14(ctx.rng, (257, 258, 300, 4097) if quick else (257, 258, 259, 300, 511, 513, 1025, 4097, 16385))
+    r14_big = gen_r14(ctx.rng, (65537,) if quick else (65537, 65536, 100003))
+    ctx.required_branches += ['R8:' + f for f in CALL_FORMS if f != 'positional'] + [
+        'R8:len1-scalars', 'R10:list', 'R10:tuple', 'R10:object-array', 'R13:derived',
+        'R14:n=257', 'R14:n=258', 'R14:n=300', 'R14:n=4097', 'R14:n=65537(oracles only)']
     try:
         correspondence(ctx, cases)
         malformed(ctx)
@@ -1056,6 +1306,7 @@ def check(ctx):
         ctx.required_branches = []
     oracles(ctx, cases)
     robustness_oracles(ctx, r1, r2, 150 if quick else 1500)
+    robustness2_oracles(ctx, r8, r10, r14_big, 90 if quick else 900)
     if not quick:
         ctx.branch('grid-enumeration', len(grid_cases()))
 
